@@ -9,6 +9,7 @@ import NetflowModel.Generated
 import NetflowModel.Oracle
 import NetflowModel.Findings
 import NetflowModel.Cost
+import NetflowModel.Fast
 open Lean Netflow
 
 /-- one `parse_bytes` call as observed on the real crate and on the model -/
